@@ -434,5 +434,86 @@ theorem squeezeImg_mem (isnan : Nat → Bool) (w : Nat) (img : List (List (Optio
     | some v => simp [h] at hc; rw [hc]
   exact List.mem_of_getElem? this
 
+/-- a logged pattern: a header row carrying the sequence number, then rows with a blank one -/
+structure Block where
+  hdr : Row
+  body : List Row
+
+def Block.rows (b : Block) : List Row := b.hdr :: b.body
+
+theorem fill_blocks (bs : List Block)
+    (hbody : ∀ b ∈ bs, ∀ r ∈ b.body, r.seq = -1)
+    (hlow : ∀ b ∈ bs, -1 ≤ b.hdr.seq)
+    (hinc : bs.Pairwise (fun a b => a.hdr.seq ≤ b.hdr.seq)) :
+    List.zipWith setSeq (bs.flatMap Block.rows) (fillInts ((bs.flatMap Block.rows).map (·.seq)))
+      = bs.flatMap (fun b => b.rows.map (setSeq · b.hdr.seq)) := by
+  have key : ∀ (bs : List Block) (acc : Int), -1 ≤ acc → (∀ b ∈ bs, acc ≤ b.hdr.seq) →
+      (∀ b ∈ bs, ∀ r ∈ b.body, r.seq = -1) → bs.Pairwise (fun a b => a.hdr.seq ≤ b.hdr.seq) →
+      fillRowsAux acc (bs.flatMap Block.rows) = bs.flatMap (fun b => b.rows.map (setSeq · b.hdr.seq)) := by
+    intro bs
+    induction bs with
+    | nil => intros; rfl
+    | cons b rest ih =>
+      intro acc hacc hle hbody hinc
+      rw [List.pairwise_cons] at hinc
+      have hb := hle b (by simp)
+      simp only [List.flatMap_cons, Block.rows]
+      rw [List.cons_append, fillRowsAux]
+      have hm : max acc b.hdr.seq = b.hdr.seq := by omega
+      have hhead : (if b.hdr.seq = -1 then max acc b.hdr.seq else b.hdr.seq) = b.hdr.seq := by
+        split <;> omega
+      rw [hhead, hm, fillRowsAux_append]
+      have hblank := fillRowsAux_blank b.hdr.seq (by omega) b.body (hbody b (by simp))
+      rw [hblank.1, hblank.2]
+      rw [ih b.hdr.seq (by omega) (fun b' hb' => hinc.1 b' hb') (fun b' hb' => hbody b' (by simp [hb'])) hinc.2]
+      simp [Block.rows]
+  cases bs with
+  | nil => rfl
+  | cons b rest =>
+    rw [List.pairwise_cons] at hinc
+    have h0 := key (b :: rest) b.hdr.seq (hlow b (by simp))
+      (by intro b' hb'; rcases List.mem_cons.mp hb' with h | h
+          · subst h; exact le_refl _
+          · exact hinc.1 b' h)
+      hbody (List.pairwise_cons.mpr hinc)
+    rw [← h0]
+    simp only [List.flatMap_cons, Block.rows, List.cons_append, List.map_cons, fillInts, List.zipWith_cons_cons,
+      fillRowsAux]
+    rw [zipWith_fillAux]
+    congr 1
+    · simp [setSeq]
+    · congr 1; omega
+
+theorem select_blocks (bs : List Block) (sel : List Int)
+    (hbody : ∀ b ∈ bs, ∀ r ∈ b.body, r.seq = -1)
+    (hlow : ∀ b ∈ bs, -1 ≤ b.hdr.seq)
+    (hinc : bs.Pairwise (fun a b => a.hdr.seq ≤ b.hdr.seq)) :
+    selectRows (some sel) (bs.flatMap Block.rows)
+      = (bs.filter (fun b => sel.contains b.hdr.seq)).flatMap (fun b => b.rows.map (setSeq · b.hdr.seq)) := by
+  have hfill := fill_blocks bs hbody hlow hinc
+  unfold selectRows
+  simp only [hfill]
+  clear hfill
+  induction bs with
+  | nil => rfl
+  | cons b rest ih =>
+    rw [List.pairwise_cons] at hinc
+    simp only [List.flatMap_cons, List.filter_append, List.filter_cons]
+    rw [ih (fun b' hb' => hbody b' (by simp [hb'])) (fun b' hb' => hlow b' (by simp [hb'])) hinc.2]
+    by_cases hc : sel.contains b.hdr.seq = true
+    · rw [if_pos hc, List.flatMap_cons]
+      congr 1
+      rw [List.filter_eq_self]
+      intro r hr
+      obtain ⟨r0, _, rfl⟩ := List.mem_map.mp hr
+      simpa [setSeq] using hc
+    · rw [if_neg hc]
+      have : (b.rows.map (setSeq · b.hdr.seq)).filter (fun r => sel.contains r.seq) = [] := by
+        rw [List.filter_eq_nil_iff]
+        intro r hr
+        obtain ⟨r0, _, rfl⟩ := List.mem_map.mp hr
+        simpa [setSeq] using hc
+      rw [this]; rfl
+
 
 end Pew.Sync
